@@ -55,7 +55,8 @@ type StepSpec struct {
 	Replicas string `json:"replicas"` // "2" or "40%"
 	Weight   int    `json:"weight"`   // -1 = none
 	Header   string `json:"header,omitempty"`
-	PauseSec int    `json:"pauseSec"` // -1 = manual
+	Both     bool   `json:"both,omitempty"` // header match and weight in one step (ingress providers write both)
+	PauseSec int    `json:"pauseSec"`       // -1 = manual
 }
 
 type UserEvent struct {
@@ -225,7 +226,9 @@ func (sc *Scenario) buildRollout() *v1beta1.Rollout {
 				val = "^1[0-9]*$"
 			}
 			steps[i].Matches = []v1beta1.HttpRouteMatch{{Headers: []gatewayv1beta1.HTTPHeaderMatch{{Type: &ht, Name: gatewayv1beta1.HTTPHeaderName(st.Header), Value: val}}}}
-			steps[i].Traffic = nil
+			if !st.Both {
+				steps[i].Traffic = nil
+			}
 		}
 	}
 	if strings.HasSuffix(sc.Family, "bluegreen") {
